@@ -281,12 +281,13 @@ def _c03_extra(seed, quick):
 
 def _c09_extra(seed, quick):
     # expiry under concurrency: clients record the harness clock around every call while an advancer thread moves it
-    return conc_shards("C09", seed, "mixed", 30 if quick else 600, 40 if quick else 400, shards=3) + conc_shards("C09", seed, "sweep-other-key", 144 if quick else 3000, 40 if quick else 400, shards=1)
+    return (conc_shards("C09", seed, "mixed", 30 if quick else 600, 40 if quick else 400, shards=3) + conc_shards("C09", seed, "sweep-other-key", 144 if quick else 3000, 40 if quick else 400, shards=1)
+            + conc_shards("C09", seed, "slow-tick", 1 if quick else 12, 60 if quick else 400, shards=2))
 
 
 def _c10_extra(seed, quick):
     return (conc_shards("C10", seed, "sweep-reput", 60 if quick else 3000, 40 if quick else 400, shards=1) + conc_shards("C10", seed, "update-sweep", 120 if quick else 3000, 40 if quick else 400, shards=1)
-            + conc_shards("C10", seed, "sweep-other-key", 144 if quick else 3000, 40 if quick else 400, shards=2) + conc_shards("C10", seed, "fanout", 30 if quick else 3000, 40 if quick else 400, shards=1))
+            + conc_shards("C10", seed, "sweep-other-key", 144 if quick else 3000, 40 if quick else 400, shards=2) + conc_shards("C10", seed, "fanout", 30 if quick else 3000, 40 if quick else 400, shards=1) + conc_shards("C10", seed, "slow-tick", 1 if quick else 12, 60 if quick else 400, shards=2))
 
 
 def _c16_extra(seed, quick):
